@@ -3,7 +3,7 @@
 (* type at publication time, in publication order per publisher; a terminated  *)
 (* or unsubscribed actor gets nothing; a restart keeps subscriptions.          *)
 EXTENDS Integers, Sequences, FiniteSets, TLC, Json
-VARIABLES l, bad, subs, expect, got, ptype, pubBy, lastFrom, dead, dl
+VARIABLES l, bad, subs, expect, got, ptype, pubBy, lastFrom, dead, dl, zombies
 
 (***************************************************************************)
 (* Trace alphabet (one JSON object per line, totally ordered by the turn   *)
@@ -23,34 +23,34 @@ Get(f, k, d) == IF k \in DOMAIN f THEN f[k] ELSE d
 Put(f, k, v) == [x \in DOMAIN f \cup {k} |-> IF x = k THEN v ELSE f[x]]
 Flag(rule) == IF bad = "" THEN rule ELSE bad
 Range(s) == {s[i] : i \in 1..Len(s)}
-vars == <<l, bad, subs, expect, got, ptype, pubBy, lastFrom, dead, dl>>
-Fresh == subs = {} /\ expect = <<>> /\ got = <<>> /\ ptype = <<>> /\ pubBy = <<>> /\ lastFrom = <<>> /\ dead = {} /\ dl = {}
-FreshNext == subs' = {} /\ expect' = <<>> /\ got' = <<>> /\ ptype' = <<>> /\ pubBy' = <<>> /\ lastFrom' = <<>> /\ dead' = {} /\ dl' = {}
+vars == <<l, bad, subs, expect, got, ptype, pubBy, lastFrom, dead, dl, zombies>>
+Fresh == subs = {} /\ expect = <<>> /\ got = <<>> /\ ptype = <<>> /\ pubBy = <<>> /\ lastFrom = <<>> /\ dead = {} /\ dl = {} /\ zombies = {}
+FreshNext == subs' = {} /\ expect' = <<>> /\ got' = <<>> /\ ptype' = <<>> /\ pubBy' = <<>> /\ lastFrom' = <<>> /\ dead' = {} /\ dl' = {} /\ zombies' = {}
 Init == l = 1 /\ bad = "" /\ Fresh
 OnSub ==
     /\ (Ev.e = "Sub")
     /\ subs' = subs \cup {<<Ev.s, Ev.a>>}
-    /\ UNCHANGED <<bad, expect, got, ptype, pubBy, lastFrom, dead, dl>>
+    /\ UNCHANGED <<bad, expect, got, ptype, pubBy, lastFrom, dead, dl, zombies>>
 OnUnsub ==
     /\ (Ev.e = "Unsub")
     /\ subs' = subs \ {<<Ev.s, Ev.a>>}
-    /\ UNCHANGED <<bad, expect, got, ptype, pubBy, lastFrom, dead, dl>>
+    /\ UNCHANGED <<bad, expect, got, ptype, pubBy, lastFrom, dead, dl, zombies>>
 OnUnsubAll ==
     /\ (Ev.e = "UnsubAll")
     /\ subs' = {s \in subs : s[2] # Ev.a}
-    /\ UNCHANGED <<bad, expect, got, ptype, pubBy, lastFrom, dead, dl>>
+    /\ UNCHANGED <<bad, expect, got, ptype, pubBy, lastFrom, dead, dl, zombies>>
 OnEvKilled ==
     /\ (Ev.e = "EvKilled")
     /\ subs' = {s \in subs : s[2] # Ev.a} /\ dead' = dead \cup {Ev.a}
-    /\ UNCHANGED <<bad, expect, got, ptype, pubBy, lastFrom, dl>>
+    /\ UNCHANGED <<bad, expect, got, ptype, pubBy, lastFrom, dl, zombies>>
 OnPub ==
     /\ (Ev.e = "Pub")
     /\ expect' = Put(expect, Ev.m, {s[2] : s \in {s \in subs : s[1] = Ev.s}})
     /\ ptype' = Put(ptype, Ev.m, Ev.s) /\ pubBy' = Put(pubBy, Ev.m, Ev.a) /\ got' = Put(got, Ev.m, {})
-    /\ UNCHANGED <<bad, subs, lastFrom, dead, dl>>
+    /\ UNCHANGED <<bad, subs, lastFrom, dead, dl, zombies>>
 OnDeliv ==
     /\ (Ev.e = "Deliv")
-    /\ IF Ev.k # "event" THEN UNCHANGED <<got, lastFrom, bad>>
+    /\ IF Ev.k # "event" THEN UNCHANGED <<got, lastFrom, bad, zombies>>
        ELSE LET key == <<Get(pubBy, Ev.m, ""), Ev.a>> IN
             /\ got' = Put(got, Ev.m, Get(got, Ev.m, {}) \cup {Ev.a})
             /\ lastFrom' = Put(lastFrom, key, Ev.m)
@@ -60,25 +60,28 @@ OnDeliv ==
                        ELSE IF Ev.s # Get(ptype, Ev.m, "") THEN Flag("TypeIsolation")
                        ELSE IF Ev.m < Get(lastFrom, key, 0) THEN Flag("PublisherOrder")
                        ELSE bad
-    /\ UNCHANGED <<subs, expect, ptype, pubBy, dead, dl>>
+    /\ UNCHANGED <<subs, expect, ptype, pubBy, dead, dl, zombies>>
 OnDL ==
     /\ (Ev.e = "DL")
     /\ dl' = IF Ev.k = "event" THEN dl \cup {<<Ev.m, Ev.a>>} ELSE dl
-    /\ UNCHANGED <<bad, subs, expect, got, ptype, pubBy, lastFrom, dead>>
+    /\ UNCHANGED <<bad, subs, expect, got, ptype, pubBy, lastFrom, dead, zombies>>
 OnAState ==
     /\ (Ev.e = "AState")
     /\ LET n == Cardinality({x \in subs : x[2] = Ev.a})
            want == ToString(n) \o "/" \o ToString(n)
        IN bad' = IF Ev.k # want THEN Flag(IF Ev.s = "gone" THEN "NoEntryAfterTermination" ELSE "TableMatchesSubscriptions") ELSE bad
-    /\ UNCHANGED <<subs, expect, got, ptype, pubBy, lastFrom, dead, dl>>
+    /\ UNCHANGED <<subs, expect, got, ptype, pubBy, lastFrom, dead, dl, zombies>>
 OnQEnd ==
     /\ (Ev.e = "QEnd")
-    /\ LET missing == {m \in DOMAIN expect : \E a \in expect[m] : a \notin Get(got, m, {}) /\ a \notin dead /\ <<m, a>> \notin dl}
+    /\ LET missing == {m \in DOMAIN expect : \E a \in expect[m] : a \notin Get(got, m, {}) /\ a \notin dead /\ a \notin zombies /\ <<m, a>> \notin dl}
        IN bad' = IF missing # {} THEN Flag("DeliveredToEverySubscriber") ELSE bad
-    /\ UNCHANGED <<subs, expect, got, ptype, pubBy, lastFrom, dead, dl>>
+    /\ UNCHANGED <<subs, expect, got, ptype, pubBy, lastFrom, dead, dl, zombies>>
 OnReset == Ev.e = "Reset" /\ FreshNext /\ UNCHANGED bad
-OnOther == Ev.e \notin {"Sub", "Unsub", "UnsubAll", "EvKilled", "Pub", "Deliv", "DL", "QEnd", "AState", "Reset"} /\ UNCHANGED <<bad, subs, expect, got, ptype, pubBy, lastFrom, dead, dl>>
-Next == l <= Len(TLog) /\ l' = l + 1 /\ (OnAState \/ OnSub \/ OnUnsub \/ OnUnsubAll \/ OnEvKilled \/ OnPub \/ OnDeliv \/ OnDL \/ OnQEnd \/ OnReset \/ OnOther)
+(* a restart hook that fails turns the actor into a zombie: it consumes its mail without running user code *)
+OnHook == /\ Ev.e = "Hook" /\ zombies' = (IF Ev.v = 0 /\ Ev.k \in {"restarted", "prelaunch"} THEN zombies \cup {Ev.a} ELSE zombies)
+          /\ UNCHANGED <<bad, subs, expect, got, ptype, pubBy, lastFrom, dead, dl>>
+OnOther == Ev.e \notin {"Sub", "Unsub", "UnsubAll", "EvKilled", "Pub", "Deliv", "DL", "QEnd", "AState", "Reset", "Hook"} /\ UNCHANGED <<bad, subs, expect, got, ptype, pubBy, lastFrom, dead, dl, zombies>>
+Next == l <= Len(TLog) /\ l' = l + 1 /\ (OnAState \/ OnSub \/ OnUnsub \/ OnUnsubAll \/ OnEvKilled \/ OnPub \/ OnDeliv \/ OnDL \/ OnQEnd \/ OnReset \/ OnHook \/ OnOther)
 Spec == Init /\ [][Next]_vars
 
 Ok == bad = ""
